@@ -31,11 +31,21 @@
      C31_bigstep_guard  the guard clause of the big-step evaluator: nil, cost + declared.
      C31_frame      the frame lemma used for all this (a framed run = the run of the upper part,
                     then the run of the frame with the result pushed).
-   Not proved here: the allocator-counter clause. The tree-store machine has no allocator; "a
-   full checkpoint restore resets the three counts" is proved on the allocator model (C12) and
-   the composed statement is observed on the implementation (lib/props/c31.py). *)
+     C31_counters   the allocator-counter clause, on the allocator models of C12: enter (checkpoint),
+                    ANY body of allocator operations that never restores to a checkpoint older
+                    than the guard's own (nested guards and GC roll-backs included), leave (full
+                    restore): the arena's atom / pair / heap counts - ghost counters included -
+                    are exactly those at guard entry, in every history in which the arena does
+                    not panic or take the F2 branch. The translator pins that run_program.rs takes
+                    the checkpoint at guard entry and restores unconditionally at exit.
+   Not proved: the composition of the two models (that the interpreter's allocator calls inside
+   a guard are such a body is by inspection: run_program.rs only restores checkpoints it took
+   itself, innermost first); the composed statement is observed on the implementation
+   (lib/props/c31.py compares the three counts after every guarded run). *)
 From Clvm Require Import Model.Machine Model.Dialect Model.BigStep Proofs.MachineFrame Proofs.MachineGuard
   Proofs.BigStepEquiv.
+From Clvm Require Import Model.Alloc Model.AllocRef Model.AllocHist Proofs.AllocBasics Proofs.AllocSim Proofs.AllocStraddle Proofs.GuardCounters.
+From Coq Require Import Lia.
 Open Scope N_scope.
 
 Theorem C31_guard : forall d M cost st vs es rest gs declared ext prg env,
@@ -140,6 +150,48 @@ Example C31_nested : forall P,
   snd (nest_ 20) = 4440 /\ snd (nest_ 21) = 4661.
 Proof. intros P. vm_compute. repeat split. Qed.
 
+Theorem C31_counters : forall fx limit pre body st_pre st_end,
+  1 <= limit ->
+  let rs := r_final limit pre in
+  let rs1 := fst (r_step rs OCheckpoint) in
+  let rs2 := fst (r_run rs1 body) in
+  let k := N.of_nat (length (r_cps rs2) - length (r_cps rs1)) in
+  let h := pre ++ OCheckpoint :: body ++ [ORestore k] in
+  Forall wf_op2 h ->
+  a_final fx limit pre = Some st_pre -> a_dead st_pre = false -> a_f2 st_pre = false ->
+  (forall st0, a_init limit = Ok st0 -> substr_clean fx st0 pre) ->
+  a_final fx limit h = Some st_end -> a_dead st_end = false -> a_f2 st_end = false ->
+  (forall st0, a_init limit = Ok st0 -> substr_clean fx st0 h) ->
+  body_local (length (r_cps rs1)) rs1 body = true -> r_dead rs2 = false ->
+  a_counts st_end = a_counts st_pre.
+Proof. exact arena_guard_counts. Qed.
+
+(* non-vacuity: a guard body with small atoms (ghost-counted), heap atoms, a nested guard, a GC
+   checkpoint with a maybe_restore, and ghost pairs; the counts return to (4, 1, 10) *)
+Definition guard_pre : list op := [ONewAtom [1; 2; 3; 4; 5; 6; 7; 8]; ONewSmall 7; ONewPair 0 1].
+Definition guard_body : list op :=
+  [ONewSmall 5; ONewAtom [9; 9; 9; 9; 9]; ONewPair 3 4; OCheckpoint; ONewU64 70000; ORestore 0;
+   OTCheckpoint; ONewConcat 13 [0; 4]; OMaybeRestore 0 4; OAddGhostPair 2; ONewNumber (-5)].
+
+Example C31_counters_witness :
+  let h := guard_pre ++ OCheckpoint :: guard_body ++ [ORestore 2] in
+  Forall wf_op2 h /\
+  N.of_nat (length (r_cps (fst (r_run (fst (r_step (r_final 5000 guard_pre) OCheckpoint)) guard_body)))
+            - length (r_cps (fst (r_step (r_final 5000 guard_pre) OCheckpoint)))) = 2 /\
+  body_local 1 (fst (r_step (r_final 5000 guard_pre) OCheckpoint)) guard_body = true /\
+  option_map a_dead (a_final true 5000 h) = Some false /\
+  option_map a_f2 (a_final true 5000 h) = Some false /\
+  option_map a_counts (a_final true 5000 guard_pre) = Some (4, 1, 10) /\
+  option_map a_counts (a_final true 5000 (guard_pre ++ OCheckpoint :: guard_body)) <> Some (4, 1, 10) /\
+  option_map a_counts (a_final true 5000 h) = Some (4, 1, 10).
+Proof.
+  cbv zeta. split.
+  { repeat (apply Forall_cons; [cbn [wf_op2]; try exact I; try reflexivity; try lia|]). apply Forall_nil. }
+  repeat split; try (vm_compute; reflexivity). vm_compute. discriminate.
+Qed.
+
+Print Assumptions C31_counters.
+Print Assumptions C31_counters_witness.
 Print Assumptions C31_guard.
 Print Assumptions C31_guard_run.
 Print Assumptions C31_depth.
